@@ -215,7 +215,78 @@ def _brief(snap, key):
     return v if not isinstance(v, list) or len(str(v)) < 400 else str(v)[:400]
 
 
+
+# --------------------------------------------------------------------------- the restart file of a stopped run
+@st.composite
+def final_cases(draw, tier):
+    """a run with SetSaveFrequency that stops on its generation limit: the restart file then holds the forced dump written
+    after the stop.  Restored from it and given the same new limit as the original, it must continue like the original."""
+    cfg = draw(configs(tier, allow_reducer=False))
+    cfg['term'] = 'never'
+    cfg['maxfun'] = None
+    n = draw(st.sampled_from([1, 2, 3, 5]))
+    k = draw(st.integers(1, 8 if tier == 'quick' else 15))
+    if draw(st.booleans()):
+        k = max(n, (k // n) * n)          # the stop generation is one the periodic dump also fires at
+    cfg.update(savefreq=n, k=k, m=draw(st.integers(2, 5)), maxiter=k, path='final', de_kwargs=False, advance=0,
+               stepmon=draw(st.sampled_from([None, 'plain', 'logging'])), evalmon=draw(st.sampled_from([None, 'plain'])),
+               monk=draw(st.sampled_from([None, None, -1])))
+    return cfg
+
+
+def run_final(case, ctx):
+    from mystic.solvers import LoadSolver
+    k = case['k']; m = case['m']
+    run, d, fn = build(case, ctx, 'B')
+    s = run.solver
+    msg = None
+    for b in range(k + 4):
+        msg = s.Step(callback=run.cb)
+        if msg:
+            break
+    if not msg or int(s.generations) != k or not os.path.exists(fn):
+        ctx.exclude('run-did-not-stop-at-k-with-a-restart-file')
+        return
+    rng = lab.rng_state()
+    fn2 = os.path.join(d, 'copy.pkl')
+    with open(fn, 'rb') as fh:
+        data = fh.read()
+    with open(fn2, 'wb') as fh:
+        fh.write(data)
+    at_stop = lab.snapshot(s)
+    # the original goes on under a new (total) generation limit
+    s.SetEvaluationLimits(generations=k + m + 3)
+    SO = []
+    for j in range(m):
+        s.Step(callback=run.cb)
+        SO.append(lab.snapshot(s))
+    # the solver restored from the restart file, same new limit, same random-generator state
+    s2 = LoadSolver(fn2)
+    ctx.expect(type(s2).__name__ == type(s).__name__ and int(s2.generations) == k, 'C06.resume',
+               lambda: dict(solver=run.kind, path='final', k=k, restored_generation=int(s2.generations)))
+    d0 = lab.snap_equal(at_stop, lab.snapshot(s2))
+    ctx.expect(d0 is None, 'C06.resume', lambda: dict(solver=run.kind, path='final', boundary=k, differs=d0, note='state right after restore'))
+    lab.set_rng_state(rng)
+    s2.SetEvaluationLimits(generations=k + m + 3)
+    changed = False
+    for j in range(m):
+        s2.Step()
+        got = lab.snapshot(s2)
+        dd = lab.snap_equal(SO[j], got)
+        ctx.expect(dd is None, 'C06.resume',
+                   lambda: dict(solver=run.kind, path='final', k=k, savefreq=case['savefreq'], boundary=k + 1 + j, differs=dd,
+                                want=_brief(SO[j], dd), got=_brief(got, dd)))
+        if got['bestSolution'] != at_stop['bestSolution']:
+            changed = True
+    ctx.label('solver:' + run.kind, 'path:final', 'stop-on-dump-generation' if k % case['savefreq'] == 0 else 'stop-between-dumps')
+    for kk in ('bounds', 'constraint', 'penalty'):
+        if case.get(kk): ctx.label(kk)
+    ctx.nontrivial(changed)
+
+
 TESTS = [Test('resume', run_case, strategy=lambda tier: cases(tier),
-              examples={'quick': 1600, 'thorough': 40000})]
+              examples={'quick': 1600, 'thorough': 40000}),
+         Test('final', run_final, strategy=lambda tier: final_cases(tier),
+              examples={'quick': 640, 'thorough': 16000})]
 
 KNOWN = {}
